@@ -87,10 +87,10 @@ class CompileCase:
                                  params=({k: pv[k] for k in self.parameters} if self.parameters else None))
 
 
-def numpy_twin_next(M, desc, vals, pars, opts=None, ops=None, scalar_shape="vec1"):
+def numpy_twin_next(M, desc, vals, pars, opts=None, ops=None, scalar_shape="vec1", int_dtype=False):
     NE, CE = drive.engines(M)
     built = D.build(M, desc, ops)
-    built.net.step(init_conditions=drive.np_init(built, vals, scalar_shape), engine=NE(),
+    built.net.step(init_conditions=drive.np_init(built, vals, scalar_shape, int_dtype=int_dtype), engine=NE(),
                    **(opts or {}), **drive.step_pars(pars))
     return drive.read_next(built), built
 
